@@ -160,7 +160,7 @@ def cases():
         if name == "multivariate_normal":
             d = draw(st.integers(1, 3))
             B = [[draw(fl(-1, 1)) for _ in range(d)] for _ in range(d)]
-            return {"dist": name, "params": [[draw(fl(-3, 3)) for _ in range(d)], B, draw(st.sampled_from([0.2, 0.5, 1.0]))], "mode": mode, "key": key}
+            return {"dist": name, "params": [[draw(fl(-3, 3)) for _ in range(d)], B, draw(st.sampled_from([0.2, 0.5, 1.0])), draw(st.sampled_from([1.0, 1.0, 1e-4, 1e-6, 1e3]))], "mode": mode, "key": key}
         if name == "dirichlet":
             return {"dist": name, "params": [[draw(fl(0.5, 5.0)) for _ in range(draw(st.integers(2, 4)))]], "mode": mode, "key": key}
         if name == "multinomial":
@@ -311,7 +311,11 @@ def classify(case, ctx=None, n1=4000):
                         fails.append((f"sampler:{C}", f"{name}{tuple(args)} draws via {mode} do not follow the reference pmf: {res}"))
         elif name == "multivariate_normal":
             mu, B, lam = np.asarray(ps[0], dtype=np.float32), np.asarray(ps[1]), ps[2]
-            cov = (B @ B.T + lam * np.eye(len(mu))).astype(np.float32)
+            cscale = float(ps[3]) if len(ps) > 3 else 1.0  # covariance scale: the matrix *is* the covariance also when it is tiny / huge
+            if cscale < 1e-2:
+                mu = np.zeros_like(mu)  # keep |x| comparable to the standard deviations (float32 resolution of x)
+            cov = (cscale * (B @ B.T + lam * np.eye(len(mu)))).astype(np.float32)
+            info["cov_scale"] = cscale
             ref = ss.multivariate_normal(mu.astype(np.float64), cov.astype(np.float64))
             xs = ref.rvs(size=50, random_state=case["key"] % 2**31).reshape(50, len(mu)).astype(np.float32)
             lp = np.asarray(impl(genjax.multivariate_normal.logpdf, jnp.asarray(xs), jnp.asarray(mu), jnp.asarray(cov)), dtype=np.float64)
@@ -418,7 +422,7 @@ def run_shard(ctx):
     def one(case):
         env.reset()
         fails, info = classify(case, ctx, P["n1"])
-        ctx.case(case, True, [f"C13.dist_{case['dist']}", f"C13.mode_{case['mode']}"], sample=case, key=(case["dist"], case["mode"], case["params"]))
+        ctx.case(case, True, [f"C13.dist_{case['dist']}", f"C13.mode_{case['mode']}"] + (["C13.mvn_covariance_scale_small"] if info.get("cov_scale", 1.0) < 1e-2 else []), sample=case, key=(case["dist"], case["mode"], case["params"]))
         for b, w in fails:
             ctx.fail(b, w, case)
 
@@ -441,7 +445,7 @@ def run_shard(ctx):
         if name in table():
             ps = [defaults[s] for s in table()[name]["pspec"]]
         elif name == "multivariate_normal":
-            ps = [[0.5, -1.0], [[0.9, 0.2], [-0.4, 0.6]], 0.5]
+            ps = [[0.5, -1.0], [[0.9, 0.2], [-0.4, 0.6]], 0.5, [1.0, 1e-6, 1e-4][ctx.seed % 3]]
         elif name == "dirichlet":
             ps = [[0.8, 2.0, 3.5]]
         elif name == "multinomial":
